@@ -165,13 +165,38 @@ class Batch:
             it = self.items[key]
             hx = ";".join((i.encode("utf-8", errors="surrogatepass") if isinstance(i, str) else i).hex() for i in inputs)
             lines.append("%s %d %d %d %d %s %s" % (cid, it["idx"], entry, 1 if memo else 0, size, width, hx))
-        rc, out, err = C.run([self.exe], input="\n".join(lines) + "\n", timeout=timeout)
         res = {}
-        for line in out.split("\n"):
-            if line.startswith("res "):
-                _, cid, rest = line.split(" ", 2)
-                res[cid] = rest.split(" | ")
-        self.last_rc, self.last_err = rc, err[-2000:]
+        todo = list(zip([r[0] for r in reqs], lines))
+        restarts = 0
+        while todo:
+            rc, out, err = C.run(["bash", "-c", "ulimit -v 8000000; exec " + self.exe], input="\n".join(l for _, l in todo) + "\n", timeout=timeout)
+            cur = None
+            for line in out.split("\n"):
+                if line.startswith("begin "):
+                    cur = line[6:].strip()
+                elif line.startswith("res "):
+                    parts = line.split(" ", 2)
+                    if len(parts) == 3:
+                        res[parts[1]] = parts[2].split(" | ")
+                    cur = None
+            self.last_rc, self.last_err = rc, err[-2000:]
+            if cur is not None and cur not in res:
+                # the process died while serving this request (fatal error such as stack overflow)
+                res[cur] = ["st=2 panic=" + ("process died: " + err[-300:]).encode().hex()]
+            # a package that ran away (timeout / fatal error) is not asked again in this batch
+            bad_pkgs = set()
+            for c, l in todo:
+                r0 = res.get(c)
+                if r0 and (r0[0].startswith("st=3") or "process died" in bytes.fromhex(r0[0].split("panic=")[-1]).decode(errors="replace") if "panic=" in r0[0] else r0[0].startswith("st=3")):
+                    bad_pkgs.add(l.split(" ")[1])
+            for c, l in todo:
+                if c not in res and l.split(" ")[1] in bad_pkgs:
+                    res[c] = ["st=3 SKIPPED-after-runaway"]
+            remaining = [(c, l) for c, l in todo if c not in res]
+            if len(remaining) == len(todo) or restarts > 60:
+                break
+            todo = remaining
+            restarts += 1
         return res
 
     def nils(self, key):
